@@ -35,6 +35,8 @@ RULE = ("for each injector: random small data sets (0..6 rows quick / 0..8 thoro
         "alphabet, feature cells incl. ties, -0.0, NaN, inf) x EVERY window 0<=from<=to<=n x every column choice / class pair "
         "drawn from present, absent and equal classes x layouts {C, Fortran, strided view, reversed view, DataFrame} "
         "(+ int64 arrays for the structural injectors); a few windows reaching past the data for the slice-based injectors. "
+        "Call sequences: for every injector class 2-4 calls on ONE reused instance alternating DataFrame and ndarray inputs with "
+        "different labels / shapes / arguments, each call judged exactly like a single call (plus the attribute _columns against the model). "
         "np.random.seed(case seed) before every call; draws are recomputed with the same seed for the model. "
         "Non-trivial: the window is non-empty and the output differs from the input (resampling: window holds >= 2 different rows; "
         "cover: >= 2 groups and n >= 1). The minimal inputs on which the code failed before its repair (Dirichlet draw summing to "
@@ -121,6 +123,14 @@ def call(case, obj, inj=None):
 def run_impl(case):
     if case["inj"] == "freq":
         return run_freq(case)
+    if case["inj"] == "seq":
+        # one instance reused for every call of the sequence
+        inj = INJ[case["cls"]]()
+        return {"raised": None, "calls": [run_one(sub, inj) for sub in case["calls"]]}
+    return run_one(case)
+
+
+def run_one(case, shared=None):
     case = dict(case, args=dict(case["args"]))
     a = case["args"]
     k = case["inj"]
@@ -133,7 +143,11 @@ def run_impl(case):
     before = snapshot(obj, base)
     obs = {"oracle": {}}
     np.random.seed(case["seed"])
-    inj = INJ[k]()
+    inj = shared if shared is not None else INJ[k]()
+    for stale in ("_p_distribution", "_section_mean", "_dirichlet_distribution"):
+        # observation attributes of an earlier call on a reused instance (the code assigns them before reading)
+        if stale in getattr(inj, "__dict__", {}):
+            delattr(inj, stale)
     try:
         _, out = call(case, obj, inj)
         obs.update(describe(out))
@@ -143,6 +157,8 @@ def run_impl(case):
         out = None
         obs["raised"] = f"{type(e).__name__}: {str(e)[:700]}"
         obs.update({"type": None, "shape": None, "columns": None, "dtypes": [], "rows": None})
+    cols_attr = getattr(inj, "_columns", None)
+    obs["state_columns"] = None if cols_attr is None else [str(c) for c in cols_attr]
     obs["input_unchanged"] = snapshot(obj, base) == before
     if dict_before is not None:
         obs["dict_unchanged"] = list(a["_dict"].items()) == dict_before and all(
@@ -266,6 +282,15 @@ def direct_check(case, obs):
         return [f"harness could not run the case: {obs['__exception__']}: {obs.get('__message__')}"]
     if case["inj"] == "freq":
         return check_freq(case, obs)
+    if case["inj"] == "seq":
+        # every call of the sequence is judged exactly like a single call on a fresh instance
+        msgs = []
+        for i, (sub, o) in enumerate(zip(case["calls"], obs["calls"])):
+            msgs += [f"call {i + 1} of {len(case['calls'])} on one {INJ[case['cls']].__name__} instance "
+                     f"(inputs so far: {[c['layout'] for c in case['calls'][:i + 1]]}): {m}" for m in direct_check(sub, o)]
+            if msgs:
+                break
+        return msgs[:4]
     msgs = []
     a, k = case["args"], case["inj"]
     rows, w = case["rows"], case["w"]
@@ -502,11 +527,22 @@ def exp_term(case, obs, rows=None):
     return "None"
 
 
+def state_term(case, obs):
+    """the attribute _columns left on the instance (LabelDirichletInjector delegates and keeps none)"""
+    if case["inj"] == "dirichlet":
+        return "true"
+    st = obs.get("state_columns")
+    exp = "None" if st is None else f"(Some {G.lst([cstr(c) for c in st])})"
+    return f"chk_state {frame_term(case)} {exp}"
+
+
 def coq_term(case, obs):
     if case["inj"] == "freq":
         return None
     if "__exception__" in obs:
         return "false"
+    if case["inj"] == "seq":
+        return " && ".join(f"({coq_term(sub, o)}) && {state_term(sub, o)}" for sub, o in zip(case["calls"], obs["calls"]))
     a, k = case["args"], case["inj"]
     fr, f, t = frame_term(case), G.z(case["from"]), G.z(case["to"])
     exp = exp_term(case, obs)
@@ -546,6 +582,8 @@ def coq_term(case, obs):
 
 
 def show_term(case, obs):
+    if case["inj"] == "seq":
+        return "(" + ", ".join(f"({show_term(sub, o)}, {state_term(sub, o)})" for sub, o in zip(case["calls"], obs["calls"])) + ")"
     a, k = case["args"], case["inj"]
     fr, f, t = frame_term(case), G.z(case["from"]), G.z(case["to"])
     orc = obs.get("oracle", {})
@@ -565,11 +603,11 @@ def show_term(case, obs):
                 f"{G.zlist(orc.get('signs', []))})")
     if k == "prob":
         cp = G.lst([f"({G.flt(kv[0])}, {G.flt(kv[1])})" for kv in a["cp"]])
-        return (f"(show_rows (call_label_probability NumFloat String.eqb {fr} {f} {t} {cref(case, a['col'])} {cp} "
-                f"{G.zlist(orc.get('positions', []))}), p_distribution NumFloat {f} {t} {G.z(a['col'])} {cp} (rows_of {fr}))")
+        return (f"(show_rows (call_label_probability NumFloat String.eqb tol9 {fr} {f} {t} {cref(case, a['col'])} {cp} "
+                f"{G.zlist(orc.get('positions', []))}), p_distribution NumFloat tol9 {f} {t} {G.z(a['col'])} {cp} (rows_of {fr}))")
     if k == "dirichlet":
         keys = G.fltlist([kv[0] for kv in a["alpha"]])
-        return (f"show_rows (call_label_dirichlet NumFloat String.eqb {fr} {f} {t} {cref(case, a['col'])} {keys} "
+        return (f"show_rows (call_label_dirichlet NumFloat String.eqb tol9 {fr} {f} {t} {cref(case, a['col'])} {keys} "
                 f"{G.fltlist(orc.get('dir', []))} {G.zlist(orc.get('positions', []))})")
     return (f"show_rows (call_cover String.eqb feq flt 0%float {fr} {cref(case, a['col'])} {G.z(a['size'])} "
             f"{G.zlist(orc.get('idxs', []))})")
@@ -580,6 +618,9 @@ def nontrivial(case, obs):
         return False
     if case["inj"] == "freq":
         return True
+    if case["inj"] == "seq":
+        kinds = ["df" if c["layout"] == "df" else "array" for c in case["calls"]]
+        return len(set(kinds)) == 2 and any(nontrivial(c, o) for c, o in zip(case["calls"], obs["calls"]))
     rows, out = case["rows"], obs["rows"]
     k = case["inj"]
     if k == "cover":
@@ -594,11 +635,22 @@ def nontrivial(case, obs):
 
 
 def signature(case, obs, msgs):
+    if case["inj"] == "seq":
+        return {"inj": "seq", "cls": case["cls"], "layouts": [c["layout"] for c in case["calls"]]}
     return {"inj": case["inj"], "layout": case["layout"], "reason": reason_of(case, obs) if isinstance(obs, dict) and "raised" in obs else None}
 
 
 def shrink_candidates(case):
     if case["inj"] == "freq":
+        return
+    if case["inj"] == "seq":
+        calls = case["calls"]
+        for i in range(len(calls)):
+            if len(calls) > 1:
+                yield dict(case, calls=calls[:i] + calls[i + 1:])
+        for i, sub in enumerate(calls):
+            for small in shrink_candidates(sub):
+                yield dict(case, calls=calls[:i] + [small] + calls[i + 1:])
         return
     rows = case["rows"]
     n = len(rows)
@@ -793,6 +845,40 @@ def gen_cases(ctx):
         add("prob", rows, w, f, t, {"col": lc, "cp": rng.choice(prob_dicts(rng, present))})
         add("dirichlet", rows, w, f, t, {"col": lc, "alpha": [[x, float(rng.choice([1, 2, 5]))] for x in present]})
         add("cover", rows, w, 0, n, {"col": lc, "size": rng.randint(0, n), "rs": rng.choice([None, rng.randint(0, 99)])})
+    # ---- call sequences on ONE reused instance: 2-4 calls alternating DataFrame / ndarray inputs with different
+    #      column labels, shapes, windows and arguments; each call is judged like a single call
+    def one_call(inj, layout):
+        n = rng.randint(0 if inj != "cover" else 1, 5); w = rng.randint(2, 4)
+        lc = rng.randrange(w)
+        rows, alpha = make_rows(rng, n, w, label_col=lc, nlabels=rng.randint(2, 3), finite=True)
+        f = rng.randint(0, n); t = rng.randint(f, n)
+        if rng.random() < 0.4:
+            f, t = 0, n
+        other = (lc + 1) % w
+        present = sorted({r[lc] for r in rows})
+        args = {"swap": lambda: {"c1": lc, "c2": other},
+                "shift": lambda: {"col": other, "sf": rng.choice([0.5, -1.0, 2.0]), "alpha": rng.choice([None, 0.5])},
+                "brownian": lambda: {"col": other, "x0": rng.choice([0.0, 1.0, -2.0]), "rs": rng.randint(0, 999)},
+                "lswap": lambda: {"col": lc, "k1": alpha[0], "k2": alpha[1]},
+                "join": lambda: {"col": lc, "k1": alpha[0], "k2": alpha[1], "knew": 7.0},
+                "prob": lambda: {"col": lc, "cp": rng.choice(prob_dicts(rng, present)[:4])},
+                "dirichlet": lambda: {"col": lc, "alpha": [[x, float(rng.choice([1, 2, 4]))] for x in present]},
+                "cover": lambda: {"col": lc, "size": rng.randint(0, n), "rs": rng.choice([None, rng.randint(0, 99)])}}[inj]()
+        names = rng.sample(NAMES + ["x", "y", "z", "label", "f0"], w)
+        return {"inj": inj, "layout": layout, "dtype": "float", "rows": rows, "w": w, "names": names,
+                "from": f, "to": t, "args": args, "seed": nseed()}
+
+    patterns = [["df", "C"], ["C", "df"], ["df", "F", "df"], ["df", "df", "strided"], ["reversed", "df", "C", "df"],
+                ["df", "C", "C"], ["C", "df", "df", "F"]]
+    for inj in INJ:
+        for rep in range(ctx.scale(5, 30)):
+            for pat in patterns:
+                subs = [one_call(inj, lay) for lay in pat]
+                if inj == "dirichlet" and any(not {r[s["args"]["col"]] for r in s["rows"]} for s in subs):
+                    continue
+                cases.append({"inj": "seq", "cls": inj, "layout": "+".join(pat), "calls": subs})
+                ctx.stats["cases_seq"] = ctx.stats.get("cases_seq", 0) + 1
+                ctx.stats[f"seq_{inj}"] = ctx.stats.get(f"seq_{inj}", 0) + 1
     # ---- realised class frequencies over a long window (chi-square at 1e-6; statistical, not a theorem)
     for _ in range(ctx.scale(3, 12)):
         cases.append(freq_case(rng, nseed()))
